@@ -45,6 +45,16 @@ FAILING = mk(res=192, sync=["0 = TS 4", "0 = B 120000", "9 = B 100000", "9 = B 9
 UNKNOWN_FIRST = "[Foo]\n{\n  0 = N 0 0\n  Resolution = 7\n  0 = B 1\n}\n"
 UNKNOWN_LAST = "[ExpertSingle ]\n{\n  0 = B 1\n  0 = N 4 9\n}\n[Bar]\n{\n}\n"
 
+WHAT = {
+    "crlf": "the text with CRLF line endings",
+    "unknown-first": "an unrecognised section in front of everything",
+    "unknown-last": "unrecognised sections behind everything",
+    "by-path": "read with Chart.from_filepath",
+    "by-path-bom": "read with Chart.from_filepath from a file with a byte-order mark",
+    "after-decoy": "a different valid chart parsed immediately before in the same process",
+    "after-failed": "a chart that fails to parse parsed immediately before in the same process",
+    "twice": "the same text parsed immediately before in the same process",
+}
 NAMES = ("crlf", "unknown-first", "unknown-last", "by-path", "by-path-bom", "after-decoy", "after-failed", "twice")
 
 
@@ -161,7 +171,7 @@ def after_probe(probe, text, got, kw):
             ctx.violation(
                 "environment:" + name,
                 case,
-                "the same section content gives another result in environment '%s' (%s): plain parse %r, there %r" % (name, __doc__.split("  " + name, 1)[1].split("\n", 1)[0].strip()[:90] if ("  " + name) in __doc__ else "", _short(got), _short(got2)),
+                "the same chart content gives another result in environment '%s' (%s): plain parse %s, there %s" % (name, WHAT[name], _short(got), _short(got2)),
                 expected=got,
                 observed=got2,
                 script=(SCRIPT.format(text=t2, mode=mode, warm=warm, kwargs=repr(kw), acceptable=[got], probe_src=src.strip("\n")) if src and not kw else None),
@@ -183,3 +193,39 @@ def replay_case(case, probe_fallback=None):
     if got in case["acceptable"]:
         return []
     return [dict(key="environment:" + case["env"], msg="replayed case still fails: got %s" % _short(got), case=case)]
+
+
+def after_model(ctx, key, text, got, want, drop):
+    """The same slice for cases that compare a whole observation with the reference model (e1.check_model): the
+    observation of the plain parse (which the model has just confirmed) must come back in every environment."""
+    global _n
+    if not STRIDE:
+        return
+    _n += 1
+    if _n % STRIDE:
+        return
+    from . import e1
+
+    for name in NAMES:
+        tr = transformed(name, text)
+        if tr is None:
+            continue
+        t2, mode, warm = tr
+        if warm is not None:
+            impl.model_outcome(warm, "file", want, drop)
+        got2 = impl.model_outcome(t2, mode, want, drop)
+        ctx.evaluations += 1
+        ctx.hist["environment_cases"] += 1
+        if got2 != got:
+            from . import refmodel
+
+            why = (refmodel.diff(got2[1], got[1]) or "") if got2[0] == "ok" and got[0] == "ok" else "outcome %s, plain parse %s" % (got2[:2] if got2[0] == "err" else "ok", got[:2] if got[0] == "err" else "ok")
+            ctx.violation(
+                "environment:" + name,
+                dict(text=t2, via=mode, want=want, drop=list(drop), acceptable=[got], warm=warm, environment=name, plain_text=text),
+                "the same chart content is observed differently in environment '%s' (%s): %s" % (name, WHAT[name], why),
+                expected=got,
+                observed=got2,
+                script=e1.model_script(t2, [got], mode, want, drop, warm=warm),
+            )
+            return
